@@ -182,20 +182,20 @@ func runLruOps(ops []string) []string {
 // lruOracle: property-level facts checked on the outputs alone (single cache named in the case).
 func lruOracle(r *Result, ops, impl []string) {
 	type ent struct {
-		val    int64
-		neg    bool
-		expire int64
-		touch  int // op index of last use
+		val       int64
+		neg       bool
+		expire    int64
+		touch     int  // op index of last use
 		maybeGone bool // enough other keys were used since its last use that eviction is allowed
 	}
 	type cstate struct {
-		isDir            bool
-		cap              int64
-		ttl, negTtl      int64
-		enableNeg        bool
-		ents             map[string]*ent
-		maxDirSize       int64
-		distinctSince    map[string]map[string]bool
+		isDir         bool
+		cap           int64
+		ttl, negTtl   int64
+		enableNeg     bool
+		ents          map[string]*ent
+		maxDirSize    int64
+		distinctSince map[string]map[string]bool
 	}
 	caches := map[string]*cstate{}
 	atoi := func(s string) int64 { v, _ := strconv.ParseInt(s, 10, 64); return v }
@@ -439,7 +439,7 @@ func checkC21(r *Result, rng *rand.Rand, thorough bool) {
 		r.count(strings.Fields(ops[0])[1])
 		for j, l := range im {
 			if strings.Contains(ops[j], " get ") {
-				r.count("get-" + strings.Fields(l+" x")[0])
+				r.count("get-" + strings.Fields(l + " x")[0])
 			}
 		}
 		if i < 2 {
